@@ -214,6 +214,7 @@ func (c *Ctx) chainResetFamily() {
 	c.Guarded("accept/stream/verified-before-rename", pl, p.PlainCalls("litefs.OS.Rename"), gs(verified), 1, "processLTXStreamFrame renames a received file into the LTX directory only after ltx verification of that temporary file succeeded", "a file with a corrupt body is otherwise published, its pages are written into the database and only then the checksum failure stops the node, leaving the corrupt file as the newest transaction")
 	c.Before("accept/stream/verify-after-copy", pl, p.CallWhere("ltx.(*Decoder).Verify", "PROCESSLTX"), p.PlainCalls("io.Copy"), 1, "... the verification reads the file after it was copied completely", "")
 	c.forwardedExtends("accept/forwarded")
+	c.snapshotPageSizeAdopted("resnapshot/page-size-adopted")
 	rf := "litefs.removeFilesExcept"
 	c.Guarded("chain-reset/keeps-excepted", rf, p.PlainCalls("litefs.OS.Remove"), gs(GP("(os.DirEntry.Name(@@) == p2)", false)), 1, "removeFilesExcept never removes the excepted name", "")
 	c.OnlyGuards("chain-reset/removes-all-others", rf, p.PlainCalls("litefs.OS.Remove"), []*Guard{
